@@ -167,6 +167,32 @@ def make_bad(rng, desc):
     return None
 
 
+def make_bad_sysex(rng):
+    """A file whose sysex payload holds one byte above 127 (F0 form): rejected with clip=False, the byte becomes 127 with
+    clip=True.  Returns (desc, bytes, expected line with clip)."""
+    ln = rng.choice([1, 2, 5, 40])
+    pos = rng.randrange(ln)
+    data = [rng.randint(0, 126) for _ in range(ln)]
+    clipped = list(data)
+    clipped[pos] = 127
+    desc = {'type': 1, 'tpb': 96 + rng.randint(0, 9), 'tracks': [
+        [(rng.choice([0, 5]), 'msg', 'note_on', {'channel': 2, 'note': 3, 'velocity': 4}),
+         (rng.choice([0, 7]), 'msg', 'sysex', {'data': tuple(clipped)}),
+         (0, 'msg', 'note_off', {'channel': 2, 'note': 3, 'velocity': 0}), (0, 'meta', 'end_of_track', {})]]}
+    want = '%d %d' % (desc['type'], desc['tpb']) + ''.join(' |' + ''.join(' ' + _loaded_form(e) for e in tr) for tr in normalised(desc))
+    enc = smf.encode_alt(rng, {'type': desc['type'], 'tpb': desc['tpb'], 'tracks': normalised(desc), 'charset': 'latin1'},
+                         pad_max=0, header_extra=0, running='never')
+    needle = [0xf0] + metas.vlq(ln + 1) + clipped + [0xf7]
+    enc = list(enc)
+    for i in range(len(enc) - len(needle) + 1):
+        if enc[i:i + len(needle)] == needle:
+            idx = i + 1 + len(metas.vlq(ln + 1)) + pos
+            assert enc[idx] == 127
+            enc[idx] = rng.choice([128, 200, 255])
+            return desc, enc, want
+    return None
+
+
 def gen(ck):
     rng = ck.rng
     n = 4000 if ck.tier == 'quick' else 60000
@@ -194,6 +220,10 @@ def gen(ck):
                 [(3, 'msg', 'note_on', {'channel': 1, 'note': 2, 'velocity': 3}), (0, 'meta', 'end_of_track', {})],
                 [(0, 'meta', 'end_of_track', {})]]}
             cases.append({'desc': desc, 'alts': [], 'bad': []})
+    for _ in range(40 if ck.tier == 'quick' else 400):
+        b = make_bad_sysex(rng)
+        if b:
+            cases.append({'desc': b[0], 'alts': [], 'bad': [(b[1], b[2])]})
     return cases
 
 
